@@ -131,7 +131,11 @@ def rand_point(rng, names, values=None, int_prob=0.15, extra=0.1, cfg=DEFAULT):
             v = int(v)
         p[nm] = v
     if rng.random() < extra:
-        p["extra_" + rng.choice("abc")] = rng.choice(values)
+        k, v = "extra_" + rng.choice("abc"), rng.choice(values)
+        if rng.random() < 0.5:
+            p = {k: v, **p}          # written before the variables' coordinates
+        else:
+            p[k] = v
     return p
 
 
@@ -249,7 +253,7 @@ ZEROS = [
     ("Negation", ("Constant", 0)),
 ]
 
-CONTEXTS = ["plain", "zero_factor_l", "zero_factor_r", "zero_factor_var", "zero_numerator", "base_one_exponent",
+CONTEXTS = ["plain", "zero_factor_l", "zero_factor_r", "zero_factor_var", "zero_factors_many", "zero_numerator", "base_one_exponent",
             "exp_base_one", "nested_add", "nested_mul", "under_unary", "under_binary_l", "under_binary_r",
             "twice_shared", "power_zero_exponent", "deep"]
 
@@ -265,6 +269,16 @@ def in_context(rng, ctx, g, zero_var=None):
     if ctx == "zero_factor_var":
         z = ("Variable", zero_var) if zero_var else ("Minus", ("Variable", "y"), ("Variable", "y"))
         return ("Multiply", z, g) if rng.random() < 0.5 else ("Multiply", ("Constant", 2), g, z)
+    if ctx == "zero_factors_many":
+        # products of arity 3-6 with one to three zero factors (constants, variable-free zeros, a coordinate that
+        # is 0 at the point) at random positions before / after the guarded node
+        zv = ("Variable", zero_var) if zero_var else ("Minus", ("Variable", "y"), ("Variable", "y"))
+        fs = [rng.choice(ZEROS + [zv, zv, zv]) for _ in range(rng.randint(1, 3))]
+        fs += [rng.choice([("Variable", "y"), ("Constant", 2), ("Variable", "x")]) for _ in range(rng.randint(0, 2))]
+        rng.shuffle(fs)
+        pos = rng.choice([0, len(fs), len(fs), rng.randint(0, len(fs))])
+        fs.insert(pos, g)
+        return ("Multiply",) + tuple(fs)
     if ctx == "zero_numerator":
         return ("Divide", rng.choice(ZEROS), ("Add", g, ("Constant", 5)))
     if ctx == "base_one_exponent":
@@ -359,6 +373,7 @@ RULE_SHAPES = [
     "npow_one", "npow_root", "npow_npow", "npow_neg", "npow_rec", "npow_exp",
     "root_one", "root_npow", "root_root", "root_neg", "root_rec",
     "exp_log", "exp_neg", "log_exp", "log_rec", "log_npow", "cos_neg", "sin_neg", "const_fold", "const_fold_undef",
+    "quot_negsum_both", "quot_negsum_one", "prod_negsums", "neg_quotient", "sum_all_negated",
 ]
 
 
@@ -499,7 +514,26 @@ def rule_shape(rng, name=None, cfg=DEFAULT):
     if name == "const_fold":
         return rand_tree(rng, rng.randint(2, 7), Cfg(p_var=0.0, consts=CONSTS_NICE + [0.1, math.e]))
     if name == "const_fold_undef":
-        return in_context(rng, rng.choice(CONTEXTS[:13]), rng.choice(VARFREE_OFFENDERS))
+        return in_context(rng, rng.choice(CONTEXTS[:14]), rng.choice(VARFREE_OFFENDERS))
+    # shapes aimed at the final normal-form pass (quotients / differences with negated sums on either side)
+    negsum = lambda: rng.choice([("Add", ("Negation", h()), ("Negation", h())), ("Minus", ("Constant", 0), h()), ("Negation", ("Add", h(), h())),
+                                 ("Add", ("Negation", h()), ("Negation", h()), ("Negation", h())), ("Minus", ("Negation", h()), h())])
+    if name == "quot_negsum_both":
+        num = ("Multiply", h(), negsum()) if rng.random() < 0.6 else negsum()
+        return ("Divide", num, negsum())
+    if name == "quot_negsum_one":
+        return ("Divide", negsum(), h()) if rng.random() < 0.5 else ("Divide", h(), negsum())
+    if name == "prod_negsums":
+        fs = [negsum() for _ in range(rng.randint(2, 3))] + _siblings(rng, 0, 2, cfg)
+        if rng.random() < 0.5:
+            fs.append(("Reciprocal", negsum()))
+        rng.shuffle(fs)
+        return ("Multiply",) + tuple(fs)
+    if name == "neg_quotient":
+        return rng.choice([("Negation", ("Divide", h(), h())), ("Divide", ("Negation", h()), ("Negation", h())), ("Reciprocal", negsum()),
+                           ("Divide", ("Negation", h()), h()), ("Minus", ("Divide", h(), h()), ("Divide", h(), negsum()))])
+    if name == "sum_all_negated":
+        return ("Add",) + tuple(("Negation", h()) if rng.random() < 0.8 else ("Multiply", ("Constant", -1), h()) for _ in range(rng.randint(1, 4)))
     raise ValueError(name)
 
 
